@@ -70,6 +70,9 @@ def gen_inputs(key, r):
     if base == 'distance_wei_floyd:inv':
         A = _dir(r, n, p=float(r.choice([.2, .4, .7]))) if r.random_sample() < .6 else _und(r, n, p=float(r.choice([.3, .6])))
         return dict(adjacency=np.abs(A), transform='inv')
+    if base == 'clustering_coef_bu':
+        A = (_und(r, n + int(r.randint(0, 3)), p=float(r.choice([.3, .5, .8]))) != 0).astype(float) if r.random_sample() < .7 else (_dir(r, n, p=.5) != 0).astype(float)
+        return dict(G=A)
     if base == 'randomizer_bin_und:sparse':
         A = (_und(r, n + int(r.randint(0, 3)), p=float(r.choice([.2, .3, .4]))) != 0).astype(float)
         np.fill_diagonal(A, 0)
